@@ -34,6 +34,7 @@ func WithCancel(parent Context) (Context, CancelFunc) {
 	return ctx, func() {
 		simrt.Yield(simrt.OpChan)
 		cancel()
+		simrt.ChanEvent()
 	}
 }
 
@@ -42,6 +43,7 @@ func WithCancelCause(parent Context) (Context, CancelCauseFunc) {
 	return ctx, func(cause error) {
 		simrt.Yield(simrt.OpChan)
 		cancel(cause)
+		simrt.ChanEvent()
 	}
 }
 
@@ -77,6 +79,7 @@ func WithDeadlineCause(parent Context, d realtime.Time, cause error) (Context, C
 		simrt.Yield(simrt.OpChan)
 		h.Stop()
 		cancel(realctx.Canceled)
+		simrt.ChanEvent()
 	}
 }
 
